@@ -490,6 +490,31 @@ def method_transparency(rep: Report, rng: random.Random):
                               f"{name}.{meth}: result on the model and on unwrap(model) differ")
 
 
+def case_transparency(rep, spec):
+    """m vs unwrap(m), bit-identical, for one entry of the bijection population (harness/zoo.py)."""
+    from flowjax.wrappers import unwrap
+    from harness import zoo
+    z = zoo.make(spec)
+    if z is None:
+        return
+    b, c = z["b"], z["cond"]
+    ub = unwrap(b)
+    x = jnp.asarray(z["points"][-1]["x"])
+    for meth in ("transform", "inverse", "transform_and_log_det", "inverse_and_log_det"):
+        if z["noinv"] and meth.startswith("inverse"):
+            continue
+        try:
+            a1 = jax.tree_util.tree_leaves(getattr(b, meth)(x, c))
+            a2 = jax.tree_util.tree_leaves(getattr(ub, meth)(x, c))
+        except Exception as e:  # noqa: BLE001
+            rep.violation({"model": z["name"], "method": meth, "error": type(e).__name__}, f"{z['name']}.{meth}: {type(e).__name__}: {str(e)[:200]}")
+            continue
+        rep.count(1, ("transparency", z["name"], meth))
+        if not all(np.array_equal(np.asarray(p), np.asarray(q), equal_nan=True) for p, q in zip(a1, a2)):
+            rep.violation({"model": z["name"], "method": meth, "what": "m vs unwrap(m)"},
+                          f"{z['name']}.{meth}: result on the model and on unwrap(model) differ: {a1} vs {a2}", {"spec": spec})
+
+
 def frozen_real_flows(rep: Report, rng: random.Random, count: int, traces: list):
     """Real flows with frozen subsets, trained by both loops with real optimisers: digests per leaf."""
     from flowjax import distributions as ds
@@ -582,6 +607,10 @@ def main():
     cases = model_check(rep, thorough)
     replay_trees(rep, cases, rng, 6000 if thorough else 700, sess, traces)
     method_transparency(rep, rng)
+    from engine import pool
+    from harness import zoo
+    pop = [sp for sp in zoo.specs(t, rep.seed, []) if sp["src"] in ("leaf", "flow")]
+    pool.map_cases(rep, "harness.c12", "case_transparency", pop, chunk=6, clear_every=10)
     frozen_real_flows(rep, rng, 36 if thorough else 12, traces)
     stats = tracecheck.check(rep, "Trace_Unwrap", "Trace_Unwrap_I.cfg", traces, P_GUARDS, pid=PID,
                              describe=lambda tr: {"tree": tr["cfg"]["term"], "opt": tr["cfg"]["opt"],
